@@ -1,11 +1,18 @@
 // ---------- class V for the symbol walker: a recorder that also logs its answers ----------
 trait SymbolVisitor<'a, V> {
+    type Fixed;                                   // whatever the callback never changes
+    #[verifier::prophetic]
+    spec fn fixed(&self) -> Self::Fixed;
     spec fn log(&self) -> Seq<Symbol<'a>>;
     spec fn answers(&self) -> Seq<ControlFlow<V>>;
+    spec fn inv(&self) -> bool;                   // an invariant of the callback's own choosing
     fn visit(&mut self, s: Symbol<'a>) -> (r: ControlFlow<V>)
+        requires old(self).inv()
         ensures
+            final(self).inv(),
             final(self).log() == old(self).log().push(s),
-            final(self).answers() == old(self).answers().push(r);
+            final(self).answers() == old(self).answers().push(r),
+            final(self).fixed() == old(self).fixed();
 }
 
 // the visitor was called exactly on xs, in order, and answered Continue every time
@@ -16,7 +23,10 @@ spec fn grew_continue<'a, V, F: SymbolVisitor<'a, V>>(o: F, n: F, xs: Seq<Symbol
     &&& forall |j: int| o.answers().len() <= j < n.answers().len() ==> #[trigger] n.answers()[j] is Continue
 }
 // the walk stopped at once at the first Break answer, which is what it returns
-spec fn grew_break<'a, V, F: SymbolVisitor<'a, V>>(o: F, n: F, v: V) -> bool {
+// ... after having been offered a prefix of xs, in order
+spec fn grew_break<'a, V, F: SymbolVisitor<'a, V>>(o: F, n: F, xs: Seq<Symbol<'a>>, v: V) -> bool {
+    &&& n.log().len() - o.log().len() <= xs.len()
+    &&& forall |j: int| o.log().len() <= j < n.log().len() ==> #[trigger] n.log()[j] == xs[j - o.log().len()]
     &&& n.answers().len() > o.answers().len()
     &&& n.log().len() - o.log().len() == n.answers().len() - o.answers().len()
     &&& forall |j: int| 0 <= j < o.log().len() ==> #[trigger] n.log()[j] == o.log()[j]
@@ -27,6 +37,291 @@ spec fn grew_break<'a, V, F: SymbolVisitor<'a, V>>(o: F, n: F, v: V) -> bool {
 spec fn walk_post<'a, V, F: SymbolVisitor<'a, V>>(o: F, n: F, xs: Seq<Symbol<'a>>, r: ControlFlow<V>) -> bool {
     match r {
         ControlFlow::Continue(_) => grew_continue(o, n, xs),
-        ControlFlow::Break(v) => grew_break(o, n, v),
+        ControlFlow::Break(v) => grew_break(o, n, xs, v),
     }
+}
+
+// ---------- prefixes of the visit sequence (what a walk that stops early has offered) ----------
+spec fn is_prefix<T>(a: Seq<T>, b: Seq<T>) -> bool {
+    a.len() <= b.len() && forall |i: int| 0 <= i < a.len() ==> #[trigger] a[i] == b[i]
+}
+proof fn lemma_prefix_append<T>(a: Seq<T>, x: Seq<T>)
+    ensures is_prefix(a, a + x)
+{ }
+proof fn lemma_prefix_trans<T>(a: Seq<T>, b: Seq<T>, c: Seq<T>)
+    requires is_prefix(a, b), is_prefix(b, c)
+    ensures is_prefix(a, c)
+{ }
+proof fn lemma_prefix_head<T>(h: Seq<T>, a: Seq<T>, b: Seq<T>)
+    requires is_prefix(a, b)
+    ensures is_prefix(h + a, h + b)
+{
+    assert forall |i: int| 0 <= i < (h + a).len() implies #[trigger] (h + a)[i] == (h + b)[i] by {
+        if i >= h.len() { assert(a[i - h.len()] == b[i - h.len()]); }
+    }
+}
+proof fn lemma_ats_concat<'a>(a: Seq<ast::Type>, b: Seq<ast::Type>)
+    ensures all_type_syms::<'a>(a + b) =~= all_type_syms::<'a>(a) + all_type_syms::<'a>(b)
+{ }
+proof fn lemma_flat_kids_prefix(t: ast::Type, k: int, n: int)
+    requires 0 <= k <= n <= t.generic_types@.len()
+    ensures is_prefix(flat_kids(t, k), flat_kids(t, n))
+    decreases n
+{
+    if k < n {
+        lemma_flat_kids_prefix(t, k, n - 1);
+        lemma_prefix_append(flat_kids(t, n - 1), flat(t.generic_types@[n - 1]));
+        lemma_prefix_trans(flat_kids(t, k), flat_kids(t, n - 1), flat_kids(t, n));
+    }
+}
+// type walk: what has been offered after child k is a prefix of the whole listing of t
+proof fn lemma_type_syms_step<'a>(t: &'a ast::Type, k: int)
+    requires 0 <= k < t.generic_types@.len()
+    ensures
+        all_type_syms::<'a>(flat_kids(*t, k + 1)) =~= all_type_syms::<'a>(flat_kids(*t, k)) + all_type_syms::<'a>(flat(t.generic_types@[k])),
+        t.kind is Array ==> is_prefix(all_type_syms::<'a>(flat_kids(*t, k)) + all_type_syms::<'a>(flat(t.generic_types@[k])), all_type_syms::<'a>(flat(*t))),
+        !(t.kind is Array) ==> is_prefix((seq![Symbol::Type(t)] + all_type_syms::<'a>(flat_kids(*t, k))) + all_type_syms::<'a>(flat(t.generic_types@[k])), all_type_syms::<'a>(flat(*t))),
+{
+    let n = t.generic_types@.len() as int;
+    lemma_ats_concat(flat_kids(*t, k), flat(t.generic_types@[k]));
+    lemma_flat_kids_prefix(*t, k + 1, n);
+    let a = flat_kids(*t, k + 1);
+    let b = flat_kids(*t, n);
+    assert(is_prefix(all_type_syms::<'a>(a), all_type_syms::<'a>(b)));
+    if t.kind is Array {
+        lemma_ats_concat(b, seq![*t]);
+        lemma_prefix_append(all_type_syms::<'a>(b), all_type_syms::<'a>(seq![*t]));
+        lemma_prefix_trans(all_type_syms::<'a>(a), all_type_syms::<'a>(b), all_type_syms::<'a>(flat(*t)));
+    } else {
+        lemma_ats_concat(seq![*t], b);
+        assert(all_type_syms::<'a>(seq![*t]) =~= seq![Symbol::Type(t)]);
+        lemma_prefix_head(seq![Symbol::Type(t)], all_type_syms::<'a>(a), all_type_syms::<'a>(b));
+        assert((seq![Symbol::Type(t)] + all_type_syms::<'a>(flat_kids(*t, k))) + all_type_syms::<'a>(flat(t.generic_types@[k])) =~= seq![Symbol::Type(t)] + all_type_syms::<'a>(a));
+    }
+}
+
+// an inner walk that stopped early, after `p` had been offered in full: what was offered in total is a prefix of xs
+proof fn lemma_break_inner<'a, V, F: SymbolVisitor<'a, V>>(o: F, fb: F, n: F, p: Seq<Symbol<'a>>, xi: Seq<Symbol<'a>>, xs: Seq<Symbol<'a>>, v: V)
+    requires grew_continue(o, fb, p), grew_break(fb, n, xi, v), is_prefix(p + xi, xs)
+    ensures grew_break(o, n, xs, v)
+{
+    assert forall |j: int| o.log().len() <= j < n.log().len() implies #[trigger] n.log()[j] == xs[j - o.log().len()] by {
+        if j < fb.log().len() {
+            assert(n.log()[j] == fb.log()[j]);
+            assert(fb.log()[j] == p[j - o.log().len()]);
+            assert((p + xi)[j - o.log().len()] == p[j - o.log().len()]);
+        } else {
+            assert(n.log()[j] == xi[j - fb.log().len()]);
+            assert((p + xi)[j - o.log().len()] == xi[j - fb.log().len()]);
+        }
+    }
+}
+// the callback answered Break at `sym`, after `p` had been offered in full
+proof fn lemma_break_visit<'a, V, F: SymbolVisitor<'a, V>>(o: F, fb: F, n: F, p: Seq<Symbol<'a>>, sym: Symbol<'a>, xs: Seq<Symbol<'a>>, v: V)
+    requires grew_continue(o, fb, p), n.log() == fb.log().push(sym), n.answers() == fb.answers().push(ControlFlow::<V, ()>::Break(v)), is_prefix(p.push(sym), xs)
+    ensures grew_break(o, n, xs, v)
+{
+    assert forall |j: int| o.log().len() <= j < n.log().len() implies #[trigger] n.log()[j] == xs[j - o.log().len()] by {
+        if j < fb.log().len() {
+            assert(n.log()[j] == fb.log()[j]);
+            assert(fb.log()[j] == p[j - o.log().len()]);
+            assert(p.push(sym)[j - o.log().len()] == p[j - o.log().len()]);
+        } else {
+            assert(p.push(sym)[j - o.log().len()] == sym);
+        }
+    }
+}
+// a + x is a prefix of c whenever a + x + y is
+proof fn lemma_prefix_cut<T>(a: Seq<T>, y: Seq<T>, c: Seq<T>)
+    requires is_prefix(a + y, c)
+    ensures is_prefix(a, c)
+{
+    assert forall |i: int| 0 <= i < a.len() implies #[trigger] a[i] == c[i] by { assert((a + y)[i] == a[i]); }
+}
+proof fn lemma_import_syms_prefix<'a>(is: Seq<ast::Import>, k: int, n: int)
+    requires 0 <= k <= n <= is.len()
+    ensures is_prefix(import_syms::<'a>(is, k), import_syms::<'a>(is, n))
+    decreases n
+{
+    if k < n { lemma_import_syms_prefix(is, k, n - 1); }
+}
+proof fn lemma_arg_syms_prefix<'a>(m: &'a ast::Method, k: int, n: int)
+    requires 0 <= k <= n <= m.args@.len()
+    ensures is_prefix(arg_syms(m, k), arg_syms(m, n))
+    decreases n
+{
+    if k < n {
+        lemma_arg_syms_prefix(m, k, n - 1);
+        lemma_prefix_append(arg_syms(m, n - 1).push(Symbol::Arg(&m.args@[n - 1], m)), all_type_syms(flat(m.args@[n - 1].arg_type)));
+        lemma_prefix_append(arg_syms(m, n - 1), seq![Symbol::Arg(&m.args@[n - 1], m)]);
+        assert(arg_syms(m, n - 1) + seq![Symbol::Arg(&m.args@[n - 1], m)] =~= arg_syms(m, n - 1).push(Symbol::Arg(&m.args@[n - 1], m)));
+        lemma_prefix_trans(arg_syms(m, n - 1), arg_syms(m, n - 1).push(Symbol::Arg(&m.args@[n - 1], m)), arg_syms(m, n));
+        lemma_prefix_trans(arg_syms(m, k), arg_syms(m, n - 1), arg_syms(m, n));
+    }
+}
+proof fn lemma_iface_syms_prefix<'a>(i: &'a ast::Interface, k: int, n: int, all: bool)
+    requires 0 <= k <= n <= i.elements@.len()
+    ensures is_prefix(iface_syms(i, k, all), iface_syms(i, n, all))
+    decreases n
+{
+    if k < n {
+        lemma_iface_syms_prefix(i, k, n - 1, all);
+        lemma_prefix_append(iface_syms(i, n - 1, all), iface_el_syms(i, &i.elements@[n - 1], all));
+        lemma_prefix_trans(iface_syms(i, k, all), iface_syms(i, n - 1, all), iface_syms(i, n, all));
+    }
+}
+proof fn lemma_parc_syms_prefix<'a>(p: &'a ast::Parcelable, k: int, n: int, all: bool)
+    requires 0 <= k <= n <= p.elements@.len()
+    ensures is_prefix(parc_syms(p, k, all), parc_syms(p, n, all))
+    decreases n
+{
+    if k < n {
+        lemma_parc_syms_prefix(p, k, n - 1, all);
+        lemma_prefix_append(parc_syms(p, n - 1, all), parc_el_syms(p, &p.elements@[n - 1], all));
+        lemma_prefix_trans(parc_syms(p, k, all), parc_syms(p, n - 1, all), parc_syms(p, n, all));
+    }
+}
+proof fn lemma_enum_syms_prefix<'a>(e: &'a ast::Enum, k: int, n: int)
+    requires 0 <= k <= n <= e.elements@.len()
+    ensures is_prefix(enum_syms(e, k), enum_syms(e, n))
+    decreases n
+{
+    if k < n { lemma_enum_syms_prefix(e, k, n - 1); }
+}
+
+// ---------- per-site prefix facts of the symbol walk (every place where the walk can stop) ----------
+proof fn lemma_import_step<'a>(a: &'a ast::Aidl, k: int)
+    requires 0 <= k < a.imports@.len()
+    ensures is_prefix((seq![Symbol::Package(&a.package)] + import_syms(a.imports@, k)).push(Symbol::Import(&a.imports@[k])), symbols_of(a, SymbolFilter::All))
+{
+    let n = a.imports@.len() as int;
+    let pkg = seq![Symbol::Package(&a.package)];
+    lemma_import_syms_prefix(a.imports@, k + 1, n);
+    lemma_prefix_head(pkg, import_syms(a.imports@, k + 1), import_syms(a.imports@, n));
+    assert((pkg + import_syms(a.imports@, k)).push(Symbol::Import(&a.imports@[k])) =~= pkg + import_syms(a.imports@, k + 1));
+    lemma_prefix_append(pkg + import_syms(a.imports@, n), seq![item_sym(a)]);
+    lemma_prefix_append(head_syms(a, SymbolFilter::All), member_syms(a, SymbolFilter::All));
+    lemma_prefix_trans(pkg + import_syms(a.imports@, k + 1), pkg + import_syms(a.imports@, n), head_syms(a, SymbolFilter::All));
+    lemma_prefix_trans(pkg + import_syms(a.imports@, k + 1), head_syms(a, SymbolFilter::All), symbols_of(a, SymbolFilter::All));
+}
+// element k of an interface: everything up to and including its symbols is a prefix of the whole walk
+proof fn lemma_iface_step<'a>(a: &'a ast::Aidl, i: &'a ast::Interface, k: int, filter: SymbolFilter)
+    requires a.item == ast::Item::Interface(*i), !(filter is ItemsOnly), 0 <= k < i.elements@.len()
+    ensures is_prefix((head_syms(a, filter) + iface_syms(i, k, filter is All)) + iface_el_syms(i, &i.elements@[k], filter is All), symbols_of(a, filter))
+{
+    let all = filter is All;
+    let n = i.elements@.len() as int;
+    lemma_iface_syms_prefix(i, k + 1, n, all);
+    lemma_prefix_head(head_syms(a, filter), iface_syms(i, k + 1, all), iface_syms(i, n, all));
+    assert((head_syms(a, filter) + iface_syms(i, k, all)) + iface_el_syms(i, &i.elements@[k], all) =~= head_syms(a, filter) + iface_syms(i, k + 1, all));
+    assert(member_syms(a, filter) == iface_syms(i, n, all));
+}
+proof fn lemma_iface_method<'a>(a: &'a ast::Aidl, i: &'a ast::Interface, k: int, m: &'a ast::Method, filter: SymbolFilter)
+    requires a.item == ast::Item::Interface(*i), !(filter is ItemsOnly), 0 <= k < i.elements@.len(), i.elements@[k] == ast::InterfaceElement::Method(*m)
+    ensures
+        is_prefix((head_syms(a, filter) + iface_syms(i, k, filter is All)).push(Symbol::Method(m, i)), symbols_of(a, filter)),
+        filter is All ==> is_prefix((head_syms(a, filter) + iface_syms(i, k, true)).push(Symbol::Method(m, i)) + all_type_syms(flat(m.return_type)), symbols_of(a, filter)),
+{
+    lemma_iface_step(a, i, k, filter);
+    let pk = head_syms(a, filter) + iface_syms(i, k, filter is All);
+    let ek = iface_el_syms(i, &i.elements@[k], filter is All);
+    if filter is All {
+        let args = arg_syms(m, m.args@.len() as int);
+        assert(pk + ek =~= (pk.push(Symbol::Method(m, i)) + all_type_syms(flat(m.return_type))) + args);
+        lemma_prefix_cut(pk.push(Symbol::Method(m, i)) + all_type_syms(flat(m.return_type)), args, symbols_of(a, filter));
+        lemma_prefix_cut(pk.push(Symbol::Method(m, i)), all_type_syms(flat(m.return_type)), symbols_of(a, filter));
+    } else {
+        assert(pk + ek =~= pk.push(Symbol::Method(m, i)));
+    }
+}
+proof fn lemma_iface_arg<'a>(a: &'a ast::Aidl, i: &'a ast::Interface, k: int, m: &'a ast::Method, j: int, filter: SymbolFilter)
+    requires a.item == ast::Item::Interface(*i), filter is All, 0 <= k < i.elements@.len(), i.elements@[k] == ast::InterfaceElement::Method(*m), 0 <= j < m.args@.len()
+    ensures
+        is_prefix((head_syms(a, filter) + iface_syms(i, k, true) + seq![Symbol::Method(m, i)] + all_type_syms(flat(m.return_type)) + arg_syms(m, j)).push(Symbol::Arg(&m.args@[j], m)), symbols_of(a, filter)),
+        is_prefix((head_syms(a, filter) + iface_syms(i, k, true) + seq![Symbol::Method(m, i)] + all_type_syms(flat(m.return_type)) + arg_syms(m, j)).push(Symbol::Arg(&m.args@[j], m)) + all_type_syms(flat(m.args@[j].arg_type)), symbols_of(a, filter)),
+{
+    lemma_iface_step(a, i, k, filter);
+    let n = m.args@.len() as int;
+    let pk = head_syms(a, filter) + iface_syms(i, k, true);
+    let base = pk + seq![Symbol::Method(m, i)] + all_type_syms(flat(m.return_type));
+    let ek = iface_el_syms(i, &i.elements@[k], true);
+    lemma_arg_syms_prefix(m, j + 1, n);
+    lemma_prefix_head(base, arg_syms(m, j + 1), arg_syms(m, n));
+    assert(pk + ek =~= base + arg_syms(m, n));
+    lemma_prefix_trans(base + arg_syms(m, j + 1), base + arg_syms(m, n), symbols_of(a, filter));
+    let full = (base + arg_syms(m, j)).push(Symbol::Arg(&m.args@[j], m)) + all_type_syms(flat(m.args@[j].arg_type));
+    assert(full =~= base + arg_syms(m, j + 1));
+    lemma_prefix_cut((base + arg_syms(m, j)).push(Symbol::Arg(&m.args@[j], m)), all_type_syms(flat(m.args@[j].arg_type)), symbols_of(a, filter));
+}
+proof fn lemma_iface_const<'a>(a: &'a ast::Aidl, i: &'a ast::Interface, k: int, c: &'a ast::Const, filter: SymbolFilter)
+    requires a.item == ast::Item::Interface(*i), !(filter is ItemsOnly), 0 <= k < i.elements@.len(), i.elements@[k] == ast::InterfaceElement::Const(*c)
+    ensures
+        is_prefix((head_syms(a, filter) + iface_syms(i, k, filter is All)).push(Symbol::Const(c, ConstOwner::Interface(i))), symbols_of(a, filter)),
+        filter is All ==> is_prefix((head_syms(a, filter) + iface_syms(i, k, true)).push(Symbol::Const(c, ConstOwner::Interface(i))) + all_type_syms(flat(c.const_type)), symbols_of(a, filter)),
+{
+    lemma_iface_step(a, i, k, filter);
+    let pk = head_syms(a, filter) + iface_syms(i, k, filter is All);
+    let ek = iface_el_syms(i, &i.elements@[k], filter is All);
+    let s = Symbol::Const(c, ConstOwner::Interface(i));
+    if filter is All {
+        assert(pk + ek =~= pk.push(s) + all_type_syms(flat(c.const_type)));
+        lemma_prefix_cut(pk.push(s), all_type_syms(flat(c.const_type)), symbols_of(a, filter));
+    } else {
+        assert(pk + ek =~= pk.push(s));
+    }
+}
+proof fn lemma_parc_step<'a>(a: &'a ast::Aidl, p: &'a ast::Parcelable, k: int, filter: SymbolFilter)
+    requires a.item == ast::Item::Parcelable(*p), !(filter is ItemsOnly), 0 <= k < p.elements@.len()
+    ensures is_prefix((head_syms(a, filter) + parc_syms(p, k, filter is All)) + parc_el_syms(p, &p.elements@[k], filter is All), symbols_of(a, filter))
+{
+    let all = filter is All;
+    let n = p.elements@.len() as int;
+    lemma_parc_syms_prefix(p, k + 1, n, all);
+    lemma_prefix_head(head_syms(a, filter), parc_syms(p, k + 1, all), parc_syms(p, n, all));
+    assert((head_syms(a, filter) + parc_syms(p, k, all)) + parc_el_syms(p, &p.elements@[k], all) =~= head_syms(a, filter) + parc_syms(p, k + 1, all));
+    assert(member_syms(a, filter) == parc_syms(p, n, all));
+}
+proof fn lemma_parc_field<'a>(a: &'a ast::Aidl, p: &'a ast::Parcelable, k: int, fi: &'a ast::Field, filter: SymbolFilter)
+    requires a.item == ast::Item::Parcelable(*p), !(filter is ItemsOnly), 0 <= k < p.elements@.len(), p.elements@[k] == ast::ParcelableElement::Field(*fi)
+    ensures
+        is_prefix((head_syms(a, filter) + parc_syms(p, k, filter is All)).push(Symbol::Field(fi, p)), symbols_of(a, filter)),
+        filter is All ==> is_prefix((head_syms(a, filter) + parc_syms(p, k, true)).push(Symbol::Field(fi, p)) + all_type_syms(flat(fi.field_type)), symbols_of(a, filter)),
+{
+    lemma_parc_step(a, p, k, filter);
+    let pk = head_syms(a, filter) + parc_syms(p, k, filter is All);
+    let ek = parc_el_syms(p, &p.elements@[k], filter is All);
+    let s = Symbol::Field(fi, p);
+    if filter is All {
+        assert(pk + ek =~= pk.push(s) + all_type_syms(flat(fi.field_type)));
+        lemma_prefix_cut(pk.push(s), all_type_syms(flat(fi.field_type)), symbols_of(a, filter));
+    } else {
+        assert(pk + ek =~= pk.push(s));
+    }
+}
+proof fn lemma_parc_const<'a>(a: &'a ast::Aidl, p: &'a ast::Parcelable, k: int, c: &'a ast::Const, filter: SymbolFilter)
+    requires a.item == ast::Item::Parcelable(*p), !(filter is ItemsOnly), 0 <= k < p.elements@.len(), p.elements@[k] == ast::ParcelableElement::Const(*c)
+    ensures
+        is_prefix((head_syms(a, filter) + parc_syms(p, k, filter is All)).push(Symbol::Const(c, ConstOwner::Parcelable(p))), symbols_of(a, filter)),
+        filter is All ==> is_prefix((head_syms(a, filter) + parc_syms(p, k, true)).push(Symbol::Const(c, ConstOwner::Parcelable(p))) + all_type_syms(flat(c.const_type)), symbols_of(a, filter)),
+{
+    lemma_parc_step(a, p, k, filter);
+    let pk = head_syms(a, filter) + parc_syms(p, k, filter is All);
+    let ek = parc_el_syms(p, &p.elements@[k], filter is All);
+    let s = Symbol::Const(c, ConstOwner::Parcelable(p));
+    if filter is All {
+        assert(pk + ek =~= pk.push(s) + all_type_syms(flat(c.const_type)));
+        lemma_prefix_cut(pk.push(s), all_type_syms(flat(c.const_type)), symbols_of(a, filter));
+    } else {
+        assert(pk + ek =~= pk.push(s));
+    }
+}
+proof fn lemma_enum_step<'a>(a: &'a ast::Aidl, e: &'a ast::Enum, k: int, filter: SymbolFilter)
+    requires a.item == ast::Item::Enum(*e), !(filter is ItemsOnly), 0 <= k < e.elements@.len()
+    ensures is_prefix((head_syms(a, filter) + enum_syms(e, k)).push(Symbol::EnumElement(&e.elements@[k], e)), symbols_of(a, filter))
+{
+    let n = e.elements@.len() as int;
+    lemma_enum_syms_prefix(e, k + 1, n);
+    lemma_prefix_head(head_syms(a, filter), enum_syms(e, k + 1), enum_syms(e, n));
+    assert((head_syms(a, filter) + enum_syms(e, k)).push(Symbol::EnumElement(&e.elements@[k], e)) =~= head_syms(a, filter) + enum_syms(e, k + 1));
+    assert(member_syms(a, filter) == enum_syms(e, n));
 }
